@@ -155,8 +155,10 @@ package dns
 
 //@ func CanonicalName [C19 C10 C17]
 //@   ensures nonempty: len(ret0) > 0
-//@   ensures fq:    ascii7(s) && IsFqdnSpec(s) ==> len(ret0) == len(s) && (forall k in 0..len(s) :: ret0[k] == lower(s[k]))
-//@   ensures nonfq: ascii7(s) && !IsFqdnSpec(s) ==> len(ret0) == len(s) + 1 && ret0[len(s)] == '.' && (forall k in 0..len(s) :: ret0[k] == lower(s[k]))
+// ... for every octet string, not only 7-bit ones: a name may hold any octet, and canonical form changes only the
+// ASCII letters A-Z
+//@   ensures fq:    IsFqdnSpec(s) ==> len(ret0) == len(s) && (forall k in 0..len(s) :: ret0[k] == lower(s[k]))
+//@   ensures nonfq: !IsFqdnSpec(s) ==> len(ret0) == len(s) + 1 && ret0[len(s)] == '.' && (forall k in 0..len(s) :: ret0[k] == lower(s[k]))
 //@   pure
 
 //@ func dnsutil.AddOrigin [C19]
